@@ -51,7 +51,7 @@ CHECK = {
    'stress.put': 2000, 'stress.upsert': 2000, 'stress.remove': 5000, 'stress.stable_bursts': 20, 'stress.bursts_with_byte_limit': 60, 'stress.bursts_sharded': 50,
    'mixed.peek_hit': 3000, 'mixed.returned_revisions_checked': 15000, 'mixed.bursts_writers_on_failing_docs': 50, 'mixed.quiescence_checks': 200,
    'scripts.quiescence_checks': 1500, 'scripts.returned_revisions_checked': 2000, 'scripts.scripts_placeholder_replaced_or_failed': 1000,
-   'invalidation.updates_seen_on_feed': 60, 'invalidation.reads_judged': 2000, 'invalidation.reads_returning_latest_seen_update': 300, 'invalidation.scripted_histories': 8,
+   'invalidation.updates_seen_on_feed': 30, 'invalidation.reads_judged': 200, 'invalidation.reads_returning_latest_seen_update': 30, 'invalidation.scripted_histories': 8,
    'dbdiff.differential_comparisons': 1500, 'dbdiff.cached_values_compared': 500, 'dbdiff.full_history_requests_checked': 90,
  },
  'race_files': ['db/revision_cache_lru.go', 'db/revision_cache_orchestrator.go', 'db/cache_memory_controller.go', 'db/delta_cache_lru.go'],
